@@ -1,0 +1,15 @@
+//go:build verif
+
+package text
+
+import pr "github.com/benoitkugler/webrender/css/properties"
+
+// VerifC15LangQuotes returns a copy of the langQuotes table (read-only accessor for the
+// verification harness, property C15: the model of GetLangQuotes gets the same table).
+func VerifC15LangQuotes() map[string][2]pr.Strings {
+	out := make(map[string][2]pr.Strings, len(langQuotes))
+	for k, v := range langQuotes {
+		out[k] = v
+	}
+	return out
+}
